@@ -62,14 +62,76 @@ def _opaque_percent(self, other):
     return "<msg>"
 
 
+def py_format(template, args, kwargs):
+    """G5: pure-Python twin of str.format for templates made of {{, }}, {}, {N} and {name} (no conversions or
+    format specs), so that a *symbolic template* is processed symbolically instead of being realised."""
+    out = []
+    auto = 0
+    i = 0
+    n = len(template)
+    while i < n:
+        c = template[i]
+        if c == '{':
+            if i + 1 < n and template[i + 1] == '{':
+                out.append('{')
+                i += 2
+                continue
+            j = i + 1
+            while j < n and template[j] != '}':
+                if template[j] == '{':
+                    raise ValueError("unexpected '{' in field name")
+                j += 1
+            if j >= n:
+                raise ValueError("expected '}' before end of string")
+            name = template[i + 1:j]
+            if name == '':
+                if auto >= len(args):
+                    raise IndexError('Replacement index %d out of range for positional args tuple' % auto)
+                out.append(str(args[auto]))
+                auto += 1
+            elif name.isdigit():
+                out.append(str(args[int(name)]))
+            else:
+                if '!' in name or ':' in name or '.' in name or '[' in name:
+                    raise NotImplementedError('G5 twin: conversions / specs are outside the modelled subset')
+                out.append(str(kwargs[name]))
+            i = j + 1
+            continue
+        if c == '}':
+            if i + 1 < n and template[i + 1] == '}':
+                out.append('}')
+                i += 2
+                continue
+            raise ValueError("Single '}' encountered in format string")
+        out.append(c)
+        i += 1
+    return ''.join(out)
+
+
+USE_PY_FORMAT = [False]
+
+
 def _opaque_format(self, /, *a, **kw):
     with NoTracing():
         sym = _has_symnum(a) or _has_symnum(kw)
         if not sym and not _any_sym(self) and not _any_sym(a) and not _any_sym(kw):
             return self.format(*a, **kw)
+        symtemplate = _any_sym(self)
     if not sym:
+        if symtemplate and USE_PY_FORMAT[0]:
+            return py_format(self, a, kw)
         return _bl._str_format(self, *a, **kw)
     return "<msg>"
+
+
+def install_py_format():
+    USE_PY_FORMAT[0] = True
+    from crosshair import abcstring as _abc
+
+    def _fmt(self, *args, **kwds):
+        return py_format(self, args, kwds)
+    _abc.AbcString.format = _fmt
+    USED.append('G5 pure-Python twin of str.format for symbolic templates ({{ }} {} {name})')
 
 
 def _fsv(kind):
